@@ -128,8 +128,8 @@ LEVEL_TEXT = ("Machine-checked Coq theorems for all operands (no size bound). (i
               "parse.rs (Repr::from_str_radix / from_str_with_radix_prefix, the RBig / Relaxed wrappers, FromStr; the integer parsers of dashu-int on "
               "the pieces of the text are parameters: for ANY integer parser the result is parse_radix_spec / parse_prefix_spec - numerator's error "
               "first, then the denominator's, then differing radices, then the zero denominator, else the canonical rational), convert.rs "
-              "(From<UBig/IBig/12 primitive types> = n/1, TryFrom<RBig/Relaxed> for IBig/UBig succeeds exactly on a stored n/1 and never refuses an "
-              "integer-valued RBig, TryFrom<f32/f64> from `== 0.` and decode() on), the one-line wrappers (Neg/Abs/Inverse for values and references, "
+              "(From<UBig/IBig/12 primitive types> = n/1, TryFrom<RBig> for IBig/UBig succeeds exactly on n/1, TryFrom<Relaxed> exactly when the VALUE is an "
+              "integer whatever pair is stored (reduced first since /repo 4757027) - an integer-valued number is never refused, TryFrom<f32/f64> from `== 0.` and decode() on), the one-line wrappers (Neg/Abs/Inverse for values and references, "
               "sqr/cubic/pow, split_at_point/ceil/floor/trunc/fract/round, sign, canonicalize/relax), third_party/num_traits.rs (Zero, One, Num, Signed, "
               "Euclid, Pow forward to the inherent operations) and third_party/serde.rs (Deserialize refuses a zero denominator and reduces). "
               "Histories now also contain the in-place forms, clone / clone_from into occupied slots, integers on the left (IBig and UBig, four "
